@@ -61,3 +61,734 @@ pub proof fn lemma_run_ident_bounds2(t: Seq<char>)
 {
     if t.len() > 0 && is_ident_s(t[0]) { lemma_run_ident_bounds2(t.skip(1)); }
 }
+
+// ---- the domain: valid components, and a version that begins with a name character (every Debian version does) -----
+pub open spec fn valid_rel_ll(v: RelV) -> bool {
+    valid_rel(v) && (v.version matches Some(cv) ==> is_ident_s(version_text(cv.1)[0]))
+}
+/// what may follow a relation: the end, " | ...", or ", ..."
+pub open spec fn sep_start(t: Seq<char>) -> bool {
+    t.len() == 0 || t[0] == ',' || (t.len() > 1 && t[0] == ' ' && t[1] == '|')
+}
+pub open spec fn sep_kind(k: Option<SyntaxKind>) -> bool { k is None || k == Some(PIPE) || k == Some(COMMA) }
+
+pub proof fn lemma_sep_peek(t: Seq<char>)
+    requires sep_start(t)
+    ensures sep_kind(q_peek(rel_tokens_of(t)))
+{
+    if t.len() == 0 { }
+    else if t[0] == ',' {
+        assert(t =~= seq![','] + t.skip(1));
+        lemma_lex_delim(',', t.skip(1));
+        let x = rel_tokens_of(t);
+        assert(x[0].0 == COMMA);
+        assert(q_ws(x) == (Seq::<Tree>::empty(), x));
+    } else {
+        let b = t.skip(1);
+        assert(t =~= seq![' '] + b);
+        assert(b[0] == '|');
+        lemma_q_ws_space(b);
+        assert(b =~= seq!['|'] + b.skip(1));
+        lemma_lex_delim('|', b.skip(1));
+        assert(rel_tokens_of(b)[0].0 == PIPE);
+    }
+}
+/// " " + delimiter + rest: after the blank, the delimiter token
+pub proof fn lemma_q_space_delim(c: char, b: Seq<char>)
+    requires delim_kind(c) is Some, c != '\n'
+    ensures
+        q_ws(rel_tokens_of(seq![' ', c] + b)).1 == seq![(delim_kind(c)->Some_0, seq![c])] + rel_tokens_of(b),
+        q_peek(rel_tokens_of(seq![' ', c] + b)) == delim_kind(c),
+{
+    let r = seq![c] + b;
+    assert(seq![' ', c] + b =~= seq![' '] + r);
+    assert(r[0] == c);
+    lemma_q_ws_space(r);
+    lemma_lex_delim(c, b);
+}
+
+// ---- the tails of a printed relation followed by t ---------------------------------------------------------------------------
+pub open spec fn tl3(v: RelV, t: Seq<char>) -> Seq<char> { groups_text(v.profiles) + t }
+pub open spec fn tl2(v: RelV, t: Seq<char>) -> Seq<char> { archs_part(v.archs) + tl3(v, t) }
+pub open spec fn tl1(v: RelV, t: Seq<char>) -> Seq<char> { version_part(v.version) + tl2(v, t) }
+pub open spec fn tl0(v: RelV, t: Seq<char>) -> Seq<char> { archqual_text(v.archqual) + tl1(v, t) }
+
+pub proof fn lemma_groups_front(g: Seq<ProfV>, rest: Seq<Seq<ProfV>>)
+    ensures groups_text(seq![g] + rest) == seq![' ', '<'] + group_text(g) + seq!['>'] + groups_text(rest)
+    decreases rest.len()
+{
+    let gs = seq![g] + rest;
+    if rest.len() == 0 {
+        assert(gs.drop_last() =~= Seq::<Seq<ProfV>>::empty());
+        assert(gs.last() == g);
+        assert(groups_text(gs.drop_last()) =~= Seq::<char>::empty());
+        assert(groups_text(rest) =~= Seq::<char>::empty());
+        assert(groups_text(gs) =~= seq![' ', '<'] + group_text(g) + seq!['>'] + groups_text(rest));
+    } else {
+        lemma_groups_front(g, rest.drop_last());
+        assert(gs.drop_last() =~= seq![g] + rest.drop_last());
+        assert(gs.last() == rest.last());
+        assert(groups_text(gs) =~= seq![' ', '<'] + group_text(g) + seq!['>'] + groups_text(rest));
+    }
+}
+pub proof fn lemma_group_front(p: ProfV, rest: Seq<ProfV>)
+    ensures group_text(seq![p] + rest) == if rest.len() == 0 { prof_text(p) } else { prof_text(p) + seq![' '] + group_text(rest) }
+    decreases rest.len()
+{
+    let g = seq![p] + rest;
+    if rest.len() == 0 { assert(g =~= seq![p]); }
+    else if rest.len() == 1 {
+        assert(g.drop_last() =~= seq![p]);
+        assert(g.last() == rest[0]);
+        assert(group_text(g.drop_last()) == prof_text(p));
+    } else {
+        lemma_group_front(p, rest.drop_last());
+        assert(g.drop_last() =~= seq![p] + rest.drop_last());
+        assert(g.last() == rest.last());
+        assert(group_text(g) =~= prof_text(p) + seq![' '] + group_text(rest));
+    }
+}
+/// what comes next (after blanks) in each tail
+pub proof fn lemma_tail_peeks(v: RelV, t: Seq<char>)
+    requires valid_rel(v), sep_start(t)
+    ensures
+        q_peek(rel_tokens_of(tl3(v, t))) == if v.profiles.len() > 0 { Some(L_ANGLE) } else { q_peek(rel_tokens_of(t)) },
+        q_peek(rel_tokens_of(tl2(v, t))) == if v.archs is Some { Some(L_BRACKET) } else { q_peek(rel_tokens_of(tl3(v, t))) },
+        q_peek(rel_tokens_of(tl1(v, t))) == if v.version is Some { Some(L_PARENS) } else { q_peek(rel_tokens_of(tl2(v, t))) },
+        sep_kind(q_peek(rel_tokens_of(t))),
+        tl0(v, t).len() == 0 || !is_ident_s(tl0(v, t)[0]),
+        tl1(v, t).len() == 0 || !is_ident_s(tl1(v, t)[0]),
+{
+    lemma_sep_peek(t);
+    if v.profiles.len() > 0 {
+        let g = v.profiles[0]; let rest = v.profiles.skip(1);
+        assert(v.profiles =~= seq![g] + rest);
+        lemma_groups_front(g, rest);
+        let inner = group_text(g) + seq!['>'] + groups_text(rest) + t;
+        assert(tl3(v, t) =~= seq![' ', '<'] + inner);
+        lemma_q_space_delim('<', inner);
+    } else {
+        assert(groups_text(v.profiles) =~= Seq::<char>::empty());
+        assert(tl3(v, t) =~= t);
+    }
+    match v.archs {
+        Some(l) => {
+            let inner = join_seqs(l, seq![' ']) + seq![']'] + tl3(v, t);
+            assert(tl2(v, t) =~= seq![' ', '['] + inner);
+            lemma_q_space_delim('[', inner);
+        }
+        None => { assert(tl2(v, t) =~= tl3(v, t)); }
+    }
+    match v.version {
+        Some(cv) => {
+            let inner = vconstraint_text(cv.0) + seq![' '] + version_text(cv.1) + seq![')'] + tl2(v, t);
+            assert(tl1(v, t) =~= seq![' ', '('] + inner);
+            lemma_q_space_delim('(', inner);
+        }
+        None => { assert(tl1(v, t) =~= tl2(v, t)); }
+    }
+    match v.archqual {
+        Some(q) => { assert(tl0(v, t)[0] == ':'); }
+        None => { assert(tl0(v, t) =~= tl1(v, t)); }
+    }
+}
+
+// ---- version -------------------------------------------------------------------------------------------------------------------
+pub open spec fn is_op_char(c: char) -> bool { c == '<' || c == '>' || c == '=' }
+pub proof fn lemma_q_ops(t: Seq<char>, b: Seq<char>)
+    requires forall|i: int| 0 <= i < t.len() ==> is_op_char(#[trigger] t[i]), b.len() > 0, b[0] == ' ', no_ws_start(b.skip(1)), b.len() == 1 || b[1] != '\n'
+    ensures q_ops(rel_tokens_of(t + b)).1 == rel_tokens_of(b)
+    decreases t.len()
+{
+    if t.len() == 0 {
+        assert(t + b =~= b);
+        assert(b =~= seq![' '] + b.skip(1));
+        lemma_q_ws_space(b.skip(1));
+        assert(rel_tokens_of(b)[0].0 == WHITESPACE);
+    } else {
+        let c = t[0];
+        let r = t.skip(1);
+        assert(t + b =~= seq![c] + (r + b));
+        lemma_lex_delim(c, r + b);
+        assert forall|i: int| 0 <= i < r.len() implies is_op_char(#[trigger] r[i]) by { assert(r[i] == t[i + 1]); }
+        lemma_q_ops(r, b);
+        let ts = rel_tokens_of(t + b);
+        assert(ts.skip(1) =~= rel_tokens_of(r + b));
+    }
+}
+pub proof fn lemma_vconstraint_ops(c: dc_relations::VersionConstraint)
+    ensures forall|i: int| 0 <= i < vconstraint_text(c).len() ==> is_op_char(#[trigger] vconstraint_text(c)[i]), vconstraint_text(c).len() > 0
+{
+    reveal_strlit(">="); reveal_strlit("<="); reveal_strlit("="); reveal_strlit(">>"); reveal_strlit("<<");
+}
+pub proof fn lemma_run_ident_bounds(t: Seq<char>)
+    ensures
+        0 <= run_ident(t) <= t.len(),
+        forall|i: int| 0 <= i < run_ident(t) ==> is_ident_s(#[trigger] t[i]),
+        run_ident(t) < t.len() ==> !is_ident_s(t[run_ident(t)]),
+        (t.len() > 0 && is_ident_s(t[0])) ==> run_ident(t) >= 1,
+    decreases t.len()
+{
+    if t.len() > 0 && is_ident_s(t[0]) {
+        lemma_run_ident_bounds(t.skip(1));
+        let k = run_ident(t.skip(1));
+        assert forall|i: int| 0 <= i < k + 1 implies is_ident_s(#[trigger] t[i]) by { if i > 0 { assert(t[i] == t.skip(1)[i - 1]); } }
+        if k + 1 < t.len() { assert(t[k + 1] == t.skip(1)[k]); }
+    }
+}
+/// version text (name characters and ':') followed by ')': consumed entirely by q_vrest
+pub proof fn lemma_q_vrest(t: Seq<char>, b: Seq<char>)
+    requires forall|i: int| 0 <= i < t.len() ==> (is_ident_s(#[trigger] t[i]) || t[i] == ':'), b.len() > 0, b[0] == ')'
+    ensures q_vrest(rel_tokens_of(t + b)).1 == rel_tokens_of(b)
+    decreases t.len()
+{
+    if t.len() == 0 {
+        assert(t + b =~= b);
+        assert(b =~= seq![')'] + b.skip(1));
+        lemma_lex_delim(')', b.skip(1));
+        assert(rel_tokens_of(b)[0].0 == R_PARENS);
+    } else if t[0] == ':' {
+        let r = t.skip(1);
+        assert(t + b =~= seq![':'] + (r + b));
+        lemma_lex_delim(':', r + b);
+        assert forall|i: int| 0 <= i < r.len() implies (is_ident_s(#[trigger] r[i]) || r[i] == ':') by { assert(r[i] == t[i + 1]); }
+        lemma_q_vrest(r, b);
+        let ts = rel_tokens_of(t + b);
+        assert(ts[0].0 == COLON);
+        assert(ts.skip(1) =~= rel_tokens_of(r + b));
+    } else {
+        let k = run_ident(t);
+        lemma_run_ident_bounds(t);
+        let x = t.take(k);
+        let r = t.skip(k);
+        assert(t + b =~= x + (r + b));
+        assert(no_ident_start(r + b)) by { if r.len() > 0 { assert((r + b)[0] == t[k]); } else { assert((r + b)[0] == b[0]); } }
+        assert(ident_str(x)) by { assert forall|i: int| 0 <= i < x.len() implies is_ident_s(#[trigger] x[i]) by { assert(x[i] == t[i]); } }
+        lemma_lex_ident(x, r + b);
+        assert forall|i: int| 0 <= i < r.len() implies (is_ident_s(#[trigger] r[i]) || r[i] == ':') by { assert(r[i] == t[i + k]); }
+        lemma_q_vrest(r, b);
+        let ts = rel_tokens_of(t + b);
+        assert(ts[0].0 == IDENT);
+        assert(ts.skip(1) =~= rel_tokens_of(r + b));
+    }
+}
+/// " (op version)" + b, reached after blanks: one VERSION node, no error, b is what remains
+pub proof fn lemma_q_version_stage(c: dc_relations::VersionConstraint, v: debversion::Version, b: Seq<char>, x: Seq<RTok>)
+    requires version_ok(v), is_ident_s(version_text(v)[0]), q_ws(x).1 == q_ws(rel_tokens_of(version_part(Some((c, v))) + b)).1
+    ensures
+        q_opt_version(x).1 == rel_tokens_of(b), q_opt_version(x).2 == 0,
+        q_opt_version(x).0.len() >= 1, q_opt_version(x).0.last() is Node && rowan::tree_kind(q_opt_version(x).0.last()) == VERSION,
+        q_opt_version(x).0.drop_last() == q_ws(x).0,
+{
+    let ct = vconstraint_text(c);
+    let vt = version_text(v);
+    let b2 = seq![')'] + b;
+    let b1 = seq![' '] + (vt + b2);
+    let inner = ct + b1;
+    assert(version_part(Some((c, v))) + b =~= seq![' ', '('] + inner);
+    lemma_q_space_delim('(', inner);
+    let y = q_ws(x).1;
+    assert(y == seq![(L_PARENS, seq!['('])] + rel_tokens_of(inner));
+    assert(y[0].0 == L_PARENS);
+    assert(y.skip(1) =~= rel_tokens_of(inner));
+    lemma_vconstraint_ops(c);
+    // no blank after '('
+    assert(inner[0] == ct[0]);
+    assert(inner =~= seq![inner[0]] + inner.skip(1));
+    lemma_lex_delim(inner[0], inner.skip(1));
+    assert(rel_tokens_of(inner)[0].0 != WHITESPACE && rel_tokens_of(inner)[0].0 != NEWLINE);
+    assert(q_ws(rel_tokens_of(inner)) == (Seq::<Tree>::empty(), rel_tokens_of(inner)));
+    // operator
+    assert(b1.skip(1) =~= vt + b2);
+    assert(b1.skip(1)[0] == vt[0]);
+    assert(b1[1] == vt[0]);
+    lemma_q_ops(ct, b1);
+    // blank, then the version
+    lemma_q_ws_space(vt + b2);
+    assert((vt + b2)[0] == vt[0]);
+    let k = run_ident(vt);
+    lemma_run_ident_bounds(vt);
+    let xi = vt.take(k); let r = vt.skip(k);
+    assert(ident_str(xi)) by { assert forall|i: int| 0 <= i < xi.len() implies is_ident_s(#[trigger] xi[i]) by { assert(xi[i] == vt[i]); } }
+    assert(no_ident_start(r + b2)) by { if r.len() > 0 { assert((r + b2)[0] == vt[k]); } else { assert((r + b2)[0] == ')'); } }
+    lemma_lex_ident(xi, r + b2);
+    assert(vt + b2 =~= xi + (r + b2));
+    let tv = rel_tokens_of(vt + b2);
+    assert(tv[0].0 == IDENT);
+    assert(tv.skip(1) =~= rel_tokens_of(r + b2));
+    assert forall|i: int| 0 <= i < r.len() implies (is_ident_s(#[trigger] r[i]) || r[i] == ':') by { assert(r[i] == vt[i + k]); }
+    lemma_q_vrest(r, b2);
+    // ')'
+    lemma_lex_delim(')', b);
+    let t2 = rel_tokens_of(b2);
+    assert(t2[0].0 == R_PARENS);
+    assert(t2.skip(1) =~= rel_tokens_of(b));
+    // assemble
+    let qv = q_version(y);
+    assert(qv.1 == rel_tokens_of(b) && qv.2 == 0);
+    assert(q_peek(x) == Some(L_PARENS));
+    let res = q_opt_version(x);
+    assert(res.0 =~= q_ws(x).0 + seq![qv.0]);
+    assert(res.0.drop_last() =~= q_ws(x).0);
+}
+
+// ---- architecture list ---------------------------------------------------------------------------------------------------------
+/// the inside of "[...]": the architectures joined by one blank, then ']'
+pub proof fn lemma_q_archs(l: Seq<Seq<char>>, b: Seq<char>)
+    requires forall|i: int| 0 <= i < l.len() ==> arch_ok(#[trigger] l[i])
+    ensures
+        q_archs(rel_tokens_of(join_seqs(l, seq![' ']) + seq![']'] + b)).1 == rel_tokens_of(b),
+        q_archs(rel_tokens_of(join_seqs(l, seq![' ']) + seq![']'] + b)).2 == 0,
+    decreases l.len()
+{
+    let close = seq![']'] + b;
+    if l.len() == 0 {
+        assert(join_seqs(l, seq![' ']) + seq![']'] + b =~= close);
+        lemma_lex_delim(']', b);
+        let ts = rel_tokens_of(close);
+        assert(ts[0].0 == R_BRACKET);
+        assert(q_ws(ts) == (Seq::<Tree>::empty(), ts));
+        assert(ts.skip(1) =~= rel_tokens_of(b));
+    } else {
+        let a = l[0];
+        let rest = l.skip(1);
+        assert(l =~= seq![a] + rest);
+        assert forall|i: int| 0 <= i < rest.len() implies arch_ok(#[trigger] rest[i]) by { assert(rest[i] == l[i + 1]); }
+        // what follows this architecture: ']' or " next"
+        let after: Seq<char> = if rest.len() == 0 { close } else { seq![' '] + (join_seqs(rest, seq![' ']) + seq![']'] + b) };
+        if rest.len() == 0 {
+            assert(join_seqs(l, seq![' ']) == a);
+            assert(join_seqs(l, seq![' ']) + seq![']'] + b =~= a + after);
+        } else {
+            lemma_join_front(a, rest, seq![' ']);
+            assert(join_seqs(l, seq![' ']) + seq![']'] + b =~= a + after);
+        }
+        assert(no_ident_start(after));
+        lemma_q_archs(rest, b);
+        let tail = join_seqs(rest, seq![' ']) + seq![']'] + b;
+        // tokens of `after`: for the non-empty rest, one blank then the tail; q_archs skips it
+        let ta = rel_tokens_of(after);
+        if rest.len() > 0 {
+            assert(no_ws_start(tail) && tail[0] != '\n') by {
+                let r0 = rest[0];
+                if rest.len() == 1 { assert(join_seqs(rest, seq![' ']) == r0); } else { lemma_join_front(r0, rest.skip(1), seq![' ']); assert(rest =~= seq![r0] + rest.skip(1)); }
+                assert(tail[0] == r0[0]);
+                if !ident_str(r0) { assert(r0[0] == '!'); }
+            }
+            lemma_q_ws_space(tail);
+            assert(q_ws(ta).1 == rel_tokens_of(tail));
+        } else {
+            assert(after =~= tail);
+        }
+        assert(q_archs(ta).1 == rel_tokens_of(b) && q_archs(ta).2 == 0) by {
+            if rest.len() > 0 {
+                // q_archs(ta): blanks, then as q_archs(tokens(tail)) which has no leading blank
+                lemma_no_ws_head(tail);
+                lemma_q_archs_skip_ws(ta);
+            }
+        }
+        // this architecture: IDENT, or NOT IDENT
+        let ts = rel_tokens_of(a + after);
+        if ident_str(a) {
+            lemma_lex_ident(a, after);
+            assert(ts[0].0 == IDENT);
+            assert(q_ws(ts) == (Seq::<Tree>::empty(), ts));
+            assert(ts.skip(1) =~= ta);
+        } else {
+            let n = a.skip(1);
+            assert(a + after =~= seq!['!'] + (n + after));
+            lemma_lex_delim('!', n + after);
+            lemma_lex_ident(n, after);
+            assert(ts[0].0 == NOT);
+            assert(q_ws(ts) == (Seq::<Tree>::empty(), ts));
+            let t1 = ts.skip(1);
+            assert(t1 =~= rel_tokens_of(n + after));
+            assert(t1[0].0 == IDENT);
+            assert(q_ws(t1) == (Seq::<Tree>::empty(), t1));
+            assert(t1.skip(1) =~= ta);
+            lemma_q_ws_len(t1);
+            assert(q_archs(t1).1 == q_archs(ta).1 && q_archs(t1).2 == q_archs(ta).2);
+        }
+        lemma_q_ws_len(ts);
+        assert(q_archs(ts).1 == q_archs(ta).1 && q_archs(ts).2 == q_archs(ta).2);
+        assert(rel_tokens_of(join_seqs(l, seq![' ']) + seq![']'] + b) == ts);
+    }
+}
+/// q_archs only depends on what follows the leading blanks
+pub proof fn lemma_q_archs_skip_ws(ts: Seq<RTok>)
+    ensures q_archs(ts).1 == q_archs(q_ws(ts).1).1, q_archs(ts).2 == q_archs(q_ws(ts).1).2
+{
+    lemma_q_ws_idem(ts);
+    lemma_q_ws_len(ts);
+    let t = q_ws(ts).1;
+    lemma_q_ws_len(t);
+}
+pub proof fn lemma_q_archs_stage(l: Seq<Seq<char>>, b: Seq<char>, x: Seq<RTok>)
+    requires forall|i: int| 0 <= i < l.len() ==> arch_ok(#[trigger] l[i]), q_ws(x).1 == q_ws(rel_tokens_of(archs_part(Some(l)) + b)).1
+    ensures
+        q_opt_archs(x).1 == rel_tokens_of(b), q_opt_archs(x).2 == 0,
+        q_opt_archs(x).0.len() >= 1, q_opt_archs(x).0.last() is Node && rowan::tree_kind(q_opt_archs(x).0.last()) == ARCHITECTURES,
+        q_opt_archs(x).0.drop_last() == q_ws(x).0,
+{
+    let inner = join_seqs(l, seq![' ']) + seq![']'] + b;
+    assert(archs_part(Some(l)) + b =~= seq![' ', '['] + inner);
+    lemma_q_space_delim('[', inner);
+    let y = q_ws(x).1;
+    assert(y[0].0 == L_BRACKET);
+    assert(y.skip(1) =~= rel_tokens_of(inner));
+    lemma_q_archs(l, b);
+    let res = q_opt_archs(x);
+    let a = q_archs(y.skip(1));
+    assert(res.0 =~= q_ws(x).0 + seq![node(ARCHITECTURES, seq![leaf(y[0])] + a.0)]);
+    assert(res.0.drop_last() =~= q_ws(x).0);
+}
+
+// ---- restriction lists ------------------------------------------------------------------------------------------------------------
+pub proof fn lemma_q_profs_skip_ws(ts: Seq<RTok>)
+    ensures q_profs(ts).1 == q_profs(q_ws(ts).1).1, q_profs(ts).2 == q_profs(q_ws(ts).1).2
+{
+    lemma_q_ws_idem(ts);
+    lemma_q_ws_len(ts);
+    let t = q_ws(ts).1;
+    lemma_q_ws_len(t);
+    if t.len() > 0 && t[0].0 == NOT { lemma_q_ws_len(t.skip(1)); }
+}
+/// the inside of "<...>": the terms separated by one blank, then '>'
+pub proof fn lemma_q_profs(g: Seq<ProfV>, b: Seq<char>)
+    requires group_ok(g)
+    ensures
+        q_profs(rel_tokens_of(group_text(g) + seq!['>'] + b)).1 == rel_tokens_of(b),
+        q_profs(rel_tokens_of(group_text(g) + seq!['>'] + b)).2 == 0,
+    decreases g.len()
+{
+    let p = g[0];
+    let rest = g.skip(1);
+    assert(g =~= seq![p] + rest);
+    lemma_group_front(p, rest);
+    let close = seq!['>'] + b;
+    let tail = group_text(rest) + seq!['>'] + b;
+    let after: Seq<char> = if rest.len() == 0 { close } else { seq![' '] + tail };
+    assert(group_text(g) + seq!['>'] + b =~= prof_text(p) + after);
+    assert(no_ident_start(after));
+    let ta = rel_tokens_of(after);
+    // what follows this term
+    if rest.len() == 0 {
+        lemma_lex_delim('>', b);
+        assert(ta[0].0 == R_ANGLE);
+        assert(q_ws(ta) == (Seq::<Tree>::empty(), ta));
+        assert(ta.skip(1) =~= rel_tokens_of(b));
+        assert(q_profs(ta).1 == rel_tokens_of(b) && q_profs(ta).2 == 0);
+    } else {
+        assert forall|i: int| 0 <= i < rest.len() implies ident_str((#[trigger] rest[i]).1) by { assert(rest[i] == g[i + 1]); }
+        lemma_q_profs(rest, b);
+        assert(no_ws_start(tail) && tail[0] != '\n') by {
+            let q = rest[0];
+            lemma_group_front(q, rest.skip(1));
+            assert(rest =~= seq![q] + rest.skip(1));
+            assert(tail[0] == prof_text(q)[0]);
+            if q.0 { assert(prof_text(q)[0] == '!'); } else { assert(prof_text(q)[0] == q.1[0]); }
+        }
+        lemma_q_ws_space(tail);
+        lemma_q_profs_skip_ws(ta);
+        assert(q_profs(ta).1 == rel_tokens_of(b) && q_profs(ta).2 == 0);
+    }
+    // this term: IDENT, or NOT IDENT
+    let ts = rel_tokens_of(prof_text(p) + after);
+    if p.0 {
+        assert(prof_text(p) + after =~= seq!['!'] + (p.1 + after));
+        lemma_lex_delim('!', p.1 + after);
+        lemma_lex_ident(p.1, after);
+        assert(ts[0].0 == NOT);
+        assert(q_ws(ts) == (Seq::<Tree>::empty(), ts));
+        let t1 = ts.skip(1);
+        assert(t1 =~= rel_tokens_of(p.1 + after));
+        assert(t1[0].0 == IDENT);
+        assert(q_ws(t1) == (Seq::<Tree>::empty(), t1));
+        assert(t1.skip(1) =~= ta);
+        lemma_q_ws_len(t1);
+        let e = q_expect(t1, IDENT);
+        assert(e.1 == ta && e.2 == 0);
+        lemma_tokens_shrink(p.1, after);
+    } else {
+        lemma_lex_ident(p.1, after);
+        assert(ts[0].0 == IDENT);
+        assert(q_ws(ts) == (Seq::<Tree>::empty(), ts));
+        assert(ts.skip(1) =~= ta);
+    }
+    lemma_q_ws_len(ts);
+}
+/// (helper for the guard in q_profs) nothing to prove beyond lengths
+pub proof fn lemma_tokens_shrink(a: Seq<char>, b: Seq<char>) { }
+
+/// all restriction lists, then t
+pub proof fn lemma_q_profiles(gs: Seq<Seq<ProfV>>, t: Seq<char>, x: Seq<RTok>)
+    requires
+        forall|i: int| 0 <= i < gs.len() ==> group_ok(#[trigger] gs[i]), sep_start(t),
+        q_ws(x).1 == q_ws(rel_tokens_of(groups_text(gs) + t)).1,
+    ensures
+        q_profiles(x).2 == 0, ws_equiv(q_profiles(x).1, rel_tokens_of(t)),
+        forall|i: int| 0 <= i < q_profiles(x).0.len() ==> (#[trigger] q_profiles(x).0[i]) is Tok || rowan::tree_kind(q_profiles(x).0[i]) == PROFILES,
+    decreases gs.len()
+{
+    lemma_sep_peek(t);
+    if gs.len() == 0 {
+        assert(groups_text(gs) =~= Seq::<char>::empty());
+        assert(groups_text(gs) + t =~= t);
+        assert(q_peek(x) == q_peek(rel_tokens_of(t)));
+        assert(q_profiles(x) == (Seq::<Tree>::empty(), x, 0nat));
+    } else {
+        let g = gs[0];
+        let rest = gs.skip(1);
+        assert(gs =~= seq![g] + rest);
+        lemma_groups_front(g, rest);
+        let after = groups_text(rest) + t;
+        let inner = group_text(g) + seq!['>'] + after;
+        assert(groups_text(gs) + t =~= seq![' ', '<'] + inner);
+        lemma_q_space_delim('<', inner);
+        let y = q_ws(x).1;
+        assert(y[0].0 == L_ANGLE);
+        assert(y.skip(1) =~= rel_tokens_of(inner));
+        assert(group_text(g) + seq!['>'] + after =~= inner);
+        lemma_q_profs(g, after);
+        let p = q_profs(y.skip(1));
+        assert(p.1 == rel_tokens_of(after) && p.2 == 0);
+        assert forall|i: int| 0 <= i < rest.len() implies group_ok(#[trigger] rest[i]) by { assert(rest[i] == gs[i + 1]); }
+        lemma_q_profiles(rest, t, rel_tokens_of(after));
+        // the guard: the rest is shorter than x
+        lemma_q_ws_len(x);
+        lemma_q_profs_len(y.skip(1));
+        assert(p.1.len() < x.len());
+        let r = q_profiles(p.1);
+        let res = q_profiles(x);
+        assert(res == (q_ws(x).0 + seq![node(PROFILES, seq![leaf(y[0])] + p.0)] + r.0, r.1, p.2 + r.2));
+        lemma_q_ws_toks(x);
+        assert forall|i: int| 0 <= i < res.0.len() implies (#[trigger] res.0[i]) is Tok || rowan::tree_kind(res.0[i]) == PROFILES by {
+            let w0 = q_ws(x).0;
+            if i < w0.len() { assert(res.0[i] == w0[i]); }
+            else if i == w0.len() { }
+            else { assert(res.0[i] == r.0[i - w0.len() - 1]); }
+        }
+    }
+}
+/// the leaves q_ws produces are tokens
+pub proof fn lemma_q_ws_toks(ts: Seq<RTok>)
+    ensures forall|i: int| 0 <= i < q_ws(ts).0.len() ==> (#[trigger] q_ws(ts).0[i]) is Tok
+    decreases ts.len()
+{
+    if ts.len() > 0 && is_wsk(ts[0].0) {
+        lemma_q_ws_toks(ts.skip(1));
+        let r = q_ws(ts.skip(1));
+        assert forall|i: int| 0 <= i < q_ws(ts).0.len() implies (#[trigger] q_ws(ts).0[i]) is Tok by {
+            if i > 0 { assert(q_ws(ts).0[i] == r.0[i - 1]); }
+        }
+    }
+}
+
+// ---- child nodes of concatenations -----------------------------------------------------------------------------------------------
+pub proof fn lemma_child_nodes_add(a: Seq<Tree>, b: Seq<Tree>)
+    ensures rowan::child_nodes(a + b) == rowan::child_nodes(a) + rowan::child_nodes(b)
+    decreases b.len()
+{
+    if b.len() == 0 {
+        assert(a + b =~= a);
+        assert(rowan::child_nodes(a) + rowan::child_nodes(b) =~= rowan::child_nodes(a));
+    } else {
+        lemma_child_nodes_add(a, b.drop_last());
+        assert((a + b).drop_last() =~= a + b.drop_last());
+        assert((a + b).last() == b.last());
+        assert(rowan::child_nodes(a + b) =~= rowan::child_nodes(a) + rowan::child_nodes(b));
+    }
+}
+/// no element is an ARCHQUAL node
+pub open spec fn no_aq(s: Seq<Tree>) -> bool { forall|i: int| 0 <= i < s.len() ==> (#[trigger] s[i]) is Tok || rowan::tree_kind(s[i]) != ARCHQUAL }
+pub proof fn lemma_no_aq_child_nodes(s: Seq<Tree>)
+    requires no_aq(s)
+    ensures forall|j: int| 0 <= j < rowan::child_nodes(s).len() ==> rowan::tree_kind(#[trigger] rowan::child_nodes(s)[j]) != ARCHQUAL
+    decreases s.len()
+{
+    if s.len() > 0 {
+        let d = s.drop_last();
+        assert forall|i: int| 0 <= i < d.len() implies (#[trigger] d[i]) is Tok || rowan::tree_kind(d[i]) != ARCHQUAL by { assert(d[i] == s[i]); }
+        lemma_no_aq_child_nodes(d);
+        assert(s.last() is Tok || rowan::tree_kind(s.last()) != ARCHQUAL);
+        let cn = rowan::child_nodes(s);
+        assert forall|j: int| 0 <= j < cn.len() implies rowan::tree_kind(#[trigger] cn[j]) != ARCHQUAL by {
+            if j < rowan::child_nodes(d).len() { assert(cn[j] == rowan::child_nodes(d)[j]); }
+        }
+    }
+}
+pub proof fn lemma_no_aq_add(a: Seq<Tree>, b: Seq<Tree>)
+    requires no_aq(a), no_aq(b)
+    ensures no_aq(a + b)
+{
+    assert forall|i: int| 0 <= i < (a + b).len() implies (#[trigger] (a + b)[i]) is Tok || rowan::tree_kind((a + b)[i]) != ARCHQUAL by {
+        if i < a.len() { assert((a + b)[i] == a[i]); } else { assert((a + b)[i] == b[i - a.len()]); }
+    }
+}
+
+// ---- one relation ---------------------------------------------------------------------------------------------------------------------
+pub proof fn lemma_child_nodes_single(x: Tree)
+    ensures rowan::child_nodes(seq![x]) == if x is Node { seq![x] } else { Seq::<Tree>::empty() }
+{
+    let s = seq![x];
+    assert(s.drop_last() =~= Seq::<Tree>::empty());
+    assert(rowan::child_nodes(s.drop_last()) =~= Seq::<Tree>::empty());
+    assert(s.last() == x);
+    if x is Node { assert(rowan::child_nodes(s) =~= seq![x]); } else { assert(rowan::child_nodes(s) =~= Seq::<Tree>::empty()); }
+}
+pub open spec fn all_tok(s: Seq<Tree>) -> bool { forall|i: int| 0 <= i < s.len() ==> (#[trigger] s[i]) is Tok }
+pub open spec fn aq_node(q: Seq<char>) -> Tree { node(ARCHQUAL, seq![leaf((COLON, seq![':'])), leaf((IDENT, q))]) }
+
+/// what follows the name: `:qualifier` or nothing
+pub proof fn lemma_stage_after_name(v: RelV, t: Seq<char>)
+    requires valid_rel_ll(v), sep_start(t)
+    ensures ({
+        let a = q_after_name(rel_tokens_of(tl0(v, t)));
+        &&& a.2 == 0
+        &&& q_ws(a.1).1 == q_ws(rel_tokens_of(tl1(v, t))).1
+        &&& match v.archqual { Some(q) => a.0.len() >= 1 && a.0[0] == aq_node(q) && all_tok(a.0.skip(1)), None => all_tok(a.0) }
+    })
+{
+    lemma_tail_peeks(v, t);
+    let t0 = tl0(v, t); let t1 = tl1(v, t);
+    let x0 = rel_tokens_of(t0);
+    let a = q_after_name(x0);
+    lemma_q_ws_idem(rel_tokens_of(t1));
+    lemma_q_ws_toks(x0);
+    lemma_q_ws_toks(rel_tokens_of(t1));
+    match v.archqual {
+        Some(q) => {
+            assert(t0 =~= seq![':'] + (q + t1));
+            lemma_lex_delim(':', q + t1);
+            lemma_lex_ident(q, t1);
+            assert(x0[0] == (COLON, seq![':']));
+            assert(q_ws(x0) == (Seq::<Tree>::empty(), x0));
+            let y1 = x0.skip(1);
+            assert(y1 =~= rel_tokens_of(q + t1));
+            assert(y1[0] == (IDENT, q));
+            assert(q_ws(y1) == (Seq::<Tree>::empty(), y1));
+            assert(y1.skip(1) =~= rel_tokens_of(t1));
+            let w3 = q_ws(rel_tokens_of(t1));
+            let aqn = node(ARCHQUAL, seq![leaf(x0[0])] + Seq::<Tree>::empty() + seq![leaf(y1[0])]);
+            assert(seq![leaf(x0[0])] + Seq::<Tree>::empty() + seq![leaf(y1[0])] =~= seq![leaf((COLON, seq![':'])), leaf((IDENT, q))]);
+            assert(a == (Seq::<Tree>::empty() + seq![aqn] + w3.0, w3.1, 0nat));
+            assert(a.0 =~= seq![aqn] + w3.0);
+            assert(a.0.skip(1) =~= w3.0);
+        }
+        None => {
+            assert(t0 =~= t1);
+            assert(a.0.len() == 0 || a.0 == q_ws(x0).0);
+        }
+    }
+}
+/// version, architectures, restriction lists
+pub proof fn lemma_stage_rest(v: RelV, t: Seq<char>, x: Seq<RTok>)
+    requires valid_rel_ll(v), sep_start(t), q_ws(x).1 == q_ws(rel_tokens_of(tl1(v, t))).1
+    ensures ({
+        let vv = q_opt_version(x); let ar = q_opt_archs(vv.1); let p = q_profiles(ar.1);
+        &&& vv.2 + ar.2 + p.2 == 0
+        &&& ws_equiv(p.1, rel_tokens_of(t))
+        &&& no_aq(vv.0 + ar.0 + p.0)
+    })
+{
+    lemma_tail_peeks(v, t);
+    let t1 = tl1(v, t); let t2 = tl2(v, t); let t3 = tl3(v, t);
+    let vv = q_opt_version(x);
+    lemma_q_ws_toks(x);
+    match v.version {
+        Some(cv) => { lemma_q_version_stage(cv.0, cv.1, t2, x); }
+        None => { assert(t1 =~= t2); assert(q_peek(x) == q_peek(rel_tokens_of(t2))); assert(vv == (Seq::<Tree>::empty(), x, 0nat)); }
+    }
+    assert(vv.2 == 0 && q_ws(vv.1).1 == q_ws(rel_tokens_of(t2)).1);
+    assert(no_aq(vv.0)) by {
+        if v.version is Some { assert forall|i: int| 0 <= i < vv.0.len() implies (#[trigger] vv.0[i]) is Tok || rowan::tree_kind(vv.0[i]) != ARCHQUAL by { if i < vv.0.len() - 1 { assert(vv.0[i] == vv.0.drop_last()[i]); } } }
+    }
+    let ar = q_opt_archs(vv.1);
+    lemma_q_ws_toks(vv.1);
+    match v.archs {
+        Some(l) => { lemma_q_archs_stage(l, t3, vv.1); }
+        None => { assert(t2 =~= t3); assert(q_peek(vv.1) == q_peek(rel_tokens_of(t3))); assert(ar == (Seq::<Tree>::empty(), vv.1, 0nat)); }
+    }
+    assert(ar.2 == 0 && q_ws(ar.1).1 == q_ws(rel_tokens_of(t3)).1);
+    assert(no_aq(ar.0)) by {
+        if v.archs is Some { assert forall|i: int| 0 <= i < ar.0.len() implies (#[trigger] ar.0[i]) is Tok || rowan::tree_kind(ar.0[i]) != ARCHQUAL by { if i < ar.0.len() - 1 { assert(ar.0[i] == ar.0.drop_last()[i]); } } }
+    }
+    lemma_q_profiles(v.profiles, t, ar.1);
+    let p = q_profiles(ar.1);
+    assert(no_aq(p.0));
+    lemma_no_aq_add(vv.0, ar.0);
+    lemma_no_aq_add(vv.0 + ar.0, p.0);
+}
+pub open spec fn rel_ok_result(r: (Tree, Seq<RTok>, nat), v: RelV, t: Seq<char>) -> bool {
+    &&& r.2 == 0
+    &&& ws_equiv(r.1, rel_tokens_of(t))
+    &&& r.0 is Node && rowan::tree_kind(r.0) == RELATION
+    &&& t_name(r.0) == Some(v.name)
+    &&& t_archqual(r.0) == v.archqual
+}
+pub proof fn lemma_q_relation(v: RelV, t: Seq<char>)
+    requires valid_rel_ll(v), sep_start(t)
+    ensures rel_ok_result(q_relation(rel_tokens_of(rel_text(v) + t)), v, t)
+{
+    lemma_tail_peeks(v, t);
+    let t0 = tl0(v, t);
+    assert(rel_text(v) + t =~= v.name + t0);
+    lemma_lex_ident(v.name, t0);
+    let ts = rel_tokens_of(rel_text(v) + t);
+    let x0 = rel_tokens_of(t0);
+    assert(ts[0] == (IDENT, v.name));
+    assert(ts.skip(1) =~= x0);
+    let n = q_expect(ts, IDENT);
+    assert(n == (leaf(ts[0]), x0, 0nat));
+    lemma_stage_after_name(v, t);
+    let a = q_after_name(x0);
+    lemma_stage_rest(v, t, a.1);
+    let vv = q_opt_version(a.1); let ar = q_opt_archs(vv.1); let p = q_profiles(ar.1);
+    let tailp = vv.0 + ar.0 + p.0;
+    let r = q_relation(ts);
+    let ch = seq![n.0] + a.0 + vv.0 + ar.0 + p.0;
+    assert(r == (node(RELATION, ch), p.1, n.2 + a.2 + vv.2 + ar.2 + p.2));
+    assert(ch[0] == leaf(ts[0]));
+    assert(first_tok(ch, IDENT) == Some(ch[0]));
+    assert(ch =~= (seq![n.0] + a.0) + tailp);
+    lemma_archqual_of(n.0, a.0, tailp, v.archqual);
+}
+/// the ARCHQUAL lookup over [name] + after-name part + the rest
+pub proof fn lemma_archqual_of(n0: Tree, a0: Seq<Tree>, tailp: Seq<Tree>, aq: Option<Seq<char>>)
+    requires
+        n0 is Tok, no_aq(tailp),
+        match aq { Some(q) => a0.len() >= 1 && a0[0] == aq_node(q) && all_tok(a0.skip(1)), None => all_tok(a0) },
+    ensures t_archqual(node(RELATION, (seq![n0] + a0) + tailp)) == aq
+{
+    let ch = (seq![n0] + a0) + tailp;
+    lemma_no_aq_child_nodes(tailp);
+    lemma_child_nodes_add(seq![n0] + a0, tailp);
+    lemma_child_nodes_add(seq![n0], a0);
+    lemma_child_nodes_single(n0);
+    let cn = rowan::child_nodes(ch);
+    match aq {
+        Some(q) => {
+            let aqn = a0[0];
+            let w3 = a0.skip(1);
+            assert(a0 =~= seq![aqn] + w3);
+            lemma_child_nodes_add(seq![aqn], w3);
+            lemma_child_nodes_single(aqn);
+            assert(cn =~= (seq![aqn] + rowan::child_nodes(w3)) + rowan::child_nodes(tailp));
+            assert(cn[0] == aqn);
+            assert(first_kind(cn, ARCHQUAL) == Some(aqn));
+            let ach = rowan::tree_children(aqn);
+            assert(ach[1] is Tok && rowan::tree_kind(ach[1]) == IDENT && rowan::tree_text(ach[1]) == q);
+            assert(first_tok(ach.skip(1), IDENT) == Some(ach[1])) by { assert(ach.skip(1)[0] == ach[1]); }
+            assert(first_tok(ach, IDENT) == Some(ach[1]));
+        }
+        None => {
+            assert(no_aq(a0));
+            lemma_no_aq_child_nodes(a0);
+            assert(cn =~= rowan::child_nodes(a0) + rowan::child_nodes(tailp));
+            assert forall|j: int| 0 <= j < cn.len() implies rowan::tree_kind(#[trigger] cn[j]) != ARCHQUAL by {
+                if j < rowan::child_nodes(a0).len() { assert(cn[j] == rowan::child_nodes(a0)[j]); } else { assert(cn[j] == rowan::child_nodes(tailp)[j - rowan::child_nodes(a0).len()]); }
+            }
+            lemma_first_kind_none(cn, ARCHQUAL);
+        }
+    }
+}
